@@ -8,7 +8,7 @@ from .. import gen_fgg, oracle_fgg as of, cmp, admit
 ID = 'C02'
 RULE = ("G1 recursive grammar specs (self-loops, mutual recursion, linear/non-linear, weight-one cycles, SCC feeding "
         "SCC; weights {0,.1,.25,.5,1}) x {Real,Log,Viterbi,Bool} x {fixed-point,newton,linear} x tol in "
-        "{1e-3,1e-6,1e-10} x kmax in {1,2,3,30,1000,10000}, float64. Bool/Viterbi: exact Kleene reference on the spec "
+        "{1e-3,1e-6,1e-10,0} x kmax in {1,2,3,30,1000,10000}, float64. Bool/Viterbi: exact Kleene reference on the spec "
         "as drawn; Real/Log: spec deterministically halved until an independent Newton+autograd reference finds a "
         "finite least fixed point with Jacobian inf-norm rho<=0.9, then |result-x*| <= tol/(1-rho)+slack is required "
         "of every run that did not warn, result <= x*+slack of runs that warned; method=linear must raise ValueError "
@@ -21,7 +21,7 @@ ASSUMPTIONS = ["Real/Log judged only on specs with a finite least fixed point an
 ESSENTIAL_LABELS = ['self-loop', 'mutual-recursion', 'linear-recursion', 'nonlinear-recursion', 'weight-one-cycle']
 KINDS = ['real', 'log', 'viterbi', 'bool']
 METHODS = ['fixed-point', 'newton', 'linear']
-TOLS = [1e-3, 1e-6, 1e-10]
+TOLS = [1e-3, 1e-6, 1e-10, 0]      # tol=0: iterate until nothing changes (MultiTensor.allclose has an exact branch); bound = slack
 KMAXS = [1, 2, 3, 30, 1000, 10000]
 
 
@@ -37,6 +37,8 @@ def cases(draw, tier):
     n = 8 if tier == 'quick' else 14
     configs = [[draw(st.sampled_from(KINDS)), draw(st.sampled_from(METHODS)), draw(st.sampled_from(TOLS)),
                 draw(st.sampled_from(KMAXS))] for _ in range(n)]
+    for c in configs:
+        if c[2] == 0: c[3] = min(c[3], 1000)      # an iteration that oscillates in the last bit runs to kmax: keep that affordable
     return {'spec': spec, 'configs': configs}
 
 
